@@ -118,8 +118,12 @@ def sym_t(x):
 def dotfree(vc, l):
     """requires: the label contains no dot (recorded for the structural split model in proof mode)"""
     if vc.mode == "sym":
+        import z3
         from pyvc.libx_dns import assume_sep_free
         assume_sep_free(vc, l, ".")
+        # the same fact in the regex form in which libx_addons' split model asks for it (decided syntactically then)
+        anyc = z3.Star(z3.AllChar(z3.ReSort(z3.StringSort())))
+        vc.ex.assume(z3.Not(z3.InRe(l.t, z3.Concat(anyc, z3.Re(z3.StringVal(".")), anyc))))
     else:
         vc.assume("." not in l)
 
@@ -151,7 +155,8 @@ def s_forms(vc):
         # spec (docstring): the j-th wildcard replaces the first j labels by "*"
         vc.ensure(f"wildcard[{j}]", r[j] == "*." + dotted(labels[j:]))
         # stated independently of the label decomposition: "*" + t with t = "." + s a suffix of the name
-        vc.ensure(f"wildcard_is_label_suffix[{j}]", And(startswith(r[j], "*."), endswith(dn, r[j][1:])))
+        t = "." + dotted(labels[j:])
+        vc.ensure(f"wildcard_is_label_suffix[{j}]", And(r[j] == "*" + t, endswith(dn, t)))
         vc.ensure(f"bare_star_never_included[{j}]", r[j] != "*")
     for j in range(1, n):
         vc.ensure(f"most_specific_first[{j}]", len_(r[j]) > len_(r[j + 1]))
@@ -331,7 +336,11 @@ def s_add_cert(vc):
 
 def matches(k, x):
     """store's wildcard rule: registered name k serves requested DNS name x"""
-    return Or(k == x, And(startswith(k, "*."), endswith(x, k[1:])))
+    if is_sym(k) or is_sym(x):
+        import z3
+        kt, xt = sym_t(k), sym_t(x)
+        return Or(k == x, And(startswith(k, "*."), SBool(z3.SuffixOf(z3.SubString(kt, 1, z3.Length(kt) - 1), xt))))
+    return k == x or (k.startswith("*.") and x.endswith(k[1:]))
 
 
 def mk_store(vc, ncustom, cap, queue, tuple_items):
@@ -433,7 +442,7 @@ def s_get_cert(vc, shape):
         vc.ensure("custom.store_unchanged", len(post) == len(pre_items) and all(a[1] is b[1] for a, b in zip(post, pre_items)) and len(q) == len(queue))
     elif r is g_same and cached:
         # (b) the cached entry for exactly these names
-        vc.ensure_kf("cached.no_custom_match", Not(any_custom), "KF-C17-1", empty_name_key(ckeys, sv))
+        vc.ensure("cached.no_custom_match", Not(any_custom))
         vc.ensure("cached.nothing_generated", len(calls) == 0)
         vc.ensure("cached.store_unchanged", len(post) == len(pre_items) and all(a[1] is b[1] for a, b in zip(post, pre_items)) and len(q) == len(queue))
     else:
@@ -447,8 +456,8 @@ def s_get_cert(vc, shape):
         vc.ensure("fresh.issued_by_default_ca", And(vc.eq(c["privkey"], KEY), c["cacert"] is ca._cert, vc.eq(r.privatekey, KEY)))
         vc.ensure("fresh.org_and_crl_passed", And(vc.eq(c["organization"], org), vc.eq(c["crl_url"], crl)))
         # (b) generation only when nothing usable is registered or cached
-        vc.ensure_kf("fresh.only_if_no_custom_match", Not(any_custom), "KF-C17-1", empty_name_key(ckeys, sv))
-        vc.ensure_kf("fresh.only_if_not_cached", not cached, "KF-C17-1", empty_name_key(ckeys, sv))
+        vc.ensure("fresh.only_if_no_custom_match", Not(any_custom))
+        vc.ensure("fresh.only_if_not_cached", not cached)
         # stored under exactly (cn, sans) and queued; capacity respected; oldest evicted with its keys
         stored = [(k, v) for k, v in post if v is r]
         evict = vc.branch(len(queue) + 1 > cap)
@@ -498,8 +507,8 @@ def s_repeat(vc):
     vc.ensure("no_exception", o1.ok and o2.ok)
     if not (o1.ok and o2.ok):
         return
-    vc.ensure_kf("same_entry", o1.result is o2.result, "KF-C17-1", empty_name_key(ckeys, sv))
-    vc.ensure_kf("at_most_one_generation", len(calls) <= 1, "KF-C17-1", empty_name_key(ckeys, sv))
+    vc.ensure("same_entry", o1.result is o2.result)
+    vc.ensure("at_most_one_generation", len(calls) <= 1)
     vc.ensure("bound", len(store.expire_queue) <= cap)
 
 
